@@ -184,7 +184,7 @@ def eval_case(case):
         tmpd = tempfile.mkdtemp(prefix='c14_', dir=clidrv.scratch_root())
         path = os.path.join(tmpd, 'pte.h')
         cheader.write_header(path, [ALPHA[i] for i in case['table']], [('f', 1)], static=bool(case.get('variant', 0) & 1),
-                             brace_same_line=bool(case.get('variant', 0) & 2))
+                             brace_same_line=bool(case.get('variant', 0) & 2), decoy_before=bool(case.get('variant', 0) & 1))
         table = table_model(case['table'])
     else:
         path = shipped_path(case['type'])
